@@ -134,6 +134,16 @@ check("C09", "fault_enumeration",
       "crash boundaries are those of interposed Python-level calls; power loss = loss of unsynced file data only (no directory-operation reordering); kernel atomicity of rename assumed",
       "DESIGN.md §5 C09")
 
+check("C10", "exploration",
+      "runtime monitoring of maintenance: (1) closure-preservation monitor over random git-built histories and random dulwich maintenance sequences with an independent (git) closure oracle re-read after every step; (2) reader/repacker actors interleaved by the deterministic scheduler at system-call granularity on objects/** with a lookup-never-misses monitor",
+      "150 (thorough 1500) histories from 17 build-op kinds (alternates, gitlinks, symlinks, detached HEAD, tags of blobs, duplicates across packs "
+      "and loose files, aged files, deleted/reset branches) x 1..5 of 14 maintenance steps: after each step every object of the pre-state closure "
+      "of refs+HEAD is read through a fresh Repo (same type and bytes), git fsck --connectivity-only passes, vanished ids are unreachable and "
+      "outside the grace period. Concurrent: 4 repacker workloads x 3 layouts (two packs, pack+loose, multi-pack-index) x 3 reader "
+      "configurations, every schedule with <=2 preemptions.",
+      "objects reachable only from index/reflogs and gitlink targets are outside the statement; iteration gaps during a repack are counted, not judged; scheduler granularity = interposed Python-level calls",
+      "DESIGN.md §5 C10")
+
 ALL = ["C%02d" % i for i in range(1, 21)]
 
 
